@@ -106,14 +106,16 @@ send_kexinit = finish(Spec(
                               'self.send_packet': contract_stub(lambda: _c11().send_packet)}),
     requires=lambda c: sk_send_inv(c),
     ensures=[('exchange-started:kex_complete-false,rekey-counters-reset', sk_counters),
-             # the same without reference to the call log (what callers may rely on)
-             ('exchange-started', lambda c: z3.And(z3.Not(c.new('_kex_complete')), c.new('_rekey_bytes_sent') == 0)),
              ('one-KEXINIT-sent-and-recorded-as-our-own', sk_wire),
-             ('does-not-own-kexinit_sent;no-other-phase-state-touched', sk_frame),
-             ('KEXINIT-is-never-queued', lambda c: c.new('_deferred_packets') == c.old('_deferred_packets'))],
-    always=[('class-inv', lambda c: sk_send_inv(c, old=False))],
-    raises={'AssertionError': lambda c: z3.And(c.old('_gss_kex'), z3.Not(is_set(c, '_gss')),
-                                               z3.BoolVal(not c.calls('send_packet'))),
+             ('does-not-own-kexinit_sent;no-other-phase-state-touched', sk_frame)],
+    # (the clauses below do not read the call log: they are what callers may rely on, on every outcome)
+    always=[('class-inv', lambda c: sk_send_inv(c, old=False)),
+            ('exchange-started', lambda c: z3.And(z3.Not(c.new('_kex_complete')), c.new('_rekey_bytes_sent') == 0)),
+            ('frame:kexinit_sent-and-the-other-phase-state-untouched(every-outcome)', sk_frame),
+            ('KEXINIT-is-never-queued', lambda c: c.new('_deferred_packets') == c.old('_deferred_packets')),
+            ('a-failed-assertion-comes-before-anything-is-sent', lambda c: z3.BoolVal(
+                c.raised != 'AssertionError' or not c.calls('send_packet')))],
+    raises={'AssertionError': lambda c: z3.And(c.old('_gss_kex'), z3.Not(is_set(c, '_gss'))),
             'ProtocolError': sk_rollover, 'CompressionError': True},
     modifies=['_kex_complete', '_rekey_bytes_sent', '_rekey_time', '_client_kexinit', '_server_kexinit',
               '_send_seq', '_kexinit_sent', '_deferred_packets']))
@@ -191,16 +193,100 @@ def _c02():
     return c02 if hasattr(c02, 'send_newkeys') else None
 
 
+def same_obj(v, ref):
+    """v (a field value) is the object `ref`"""
+    if isinstance(v, VRef):
+        return z3.BoolVal(isinstance(ref, VRef) and v.addr == ref.addr)
+    if isinstance(v, VOpt) and isinstance(v.val, VRef):
+        return z3.And(z3.Not(v.isnone), z3.BoolVal(isinstance(ref, VRef) and v.val.addr == ref.addr))
+    return z3.BoolVal(False)
+
+
+def _newkeys_sent(st):
+    return any(x['key'] == 'self.send_packet' and x['exc'] is None and concrete_int(x['args'][0]) == 21
+               for x in st.calls)
+
+
+def _made_keys(st):
+    return [x['ret'] for x in st.calls if x['key'] == 'get_encryption' and x['exc'] is None]
+
+
+def nk_send_stub(cx):
+    """self.send_packet inside send_newkeys: NEWKEYS leaves while the exchange is still marked as running (so nothing
+    that was held back can overtake it) and under the OLD send keys (RFC 4253 7.3: the new keys apply AFTER it)"""
+    if concrete_int(cx.args[0]) == 21:
+        old_enc = cx.ex.get_field(cx.ex.entry_state, cx.ex.self_ref, '_send_encryption')
+        cx.require('NEWKEYS-leaves-while-the-exchange-is-still-marked-running', z3.Not(cx.selff('_kex_complete').z))
+        cx.require('NEWKEYS-leaves-under-the-old-send-keys',
+                   cx.ex.veq(cx.st, old_enc, cx.selff('_send_encryption')))
+    return [Out(event=('send_packet', tuple(cx.args)))]
+
+
+nk_send_stub.modifies = ()
+
+
+def nk_flush_stub(cx):
+    """self._send_deferred_packets() at the end of send_newkeys: what was held back during the exchange is released
+    only once NEWKEYS is out, the new send keys are installed and _kex_complete is raised"""
+    made = _made_keys(cx.st)
+    cur = cx.selff('_send_encryption')
+    cx.require('flush-only-after-kex_complete-is-raised', cx.selff('_kex_complete').z)
+    cx.require('flush-only-after-NEWKEYS-went-out', z3.BoolVal(_newkeys_sent(cx.st)))
+    cx.require('flush-only-under-the-new-send-keys', z3.Or(*[same_obj(cur, m) for m in made] + [z3.BoolVal(False)]))
+    return [Out(event=('flush_deferred', ()))]
+
+
+nk_flush_stub.modifies = ()
+
+
+def nk_flushed(c):
+    """a completed exchange releases the held-back packets exactly once (the only normal return without it is the
+    connect(wait='kex') short-cut, which leaves the exchange marked as running: nothing flows, the caller closes)"""
+    n = len(c.events('flush_deferred'))
+    early = len(c.events('waiter_set')) == 1
+    return z3.Or(z3.And(z3.BoolVal(n == 1 and not early), c.new('_kex_complete')),
+                 z3.And(z3.BoolVal(n == 0 and early), c.new('_kex_complete') == c.old('_kex_complete')))
+
+
+def nk_fresh_keys(c):
+    """traffic after NEWKEYS is protected with freshly derived keys: the send cipher and the staged receive cipher
+    are the two objects built in THIS activation from the new (k, h) - never a left-over of the previous exchange.
+    (Which letters / directions they are built from is C02: rfc4253-7.2-letters-and-directions.)"""
+    made = _made_keys(c.new_state)
+    if len(made) != 2:
+        return z3.BoolVal(False)
+    send, recv = c.newv('_send_encryption'), c.newv('_next_recv_encryption')
+    return z3.If(c.old('_is_client'), z3.And(same_obj(send, made[0]), same_obj(recv, made[1])),
+                 z3.And(same_obj(send, made[1]), same_obj(recv, made[0])))
+
+
+def nk_bookkeeping(c):
+    """_kex_complete is raised only by an activation that sent NEWKEYS and installed the new send keys; the exchange
+    object is gone then (K: `_kex is not None => not _kex_complete` holds afterwards)"""
+    raised_now = z3.And(c.new('_kex_complete'), z3.Not(c.old('_kex_complete')))
+    made = _made_keys(c.new_state)
+    cur = c.newv('_send_encryption')
+    return z3.And(z3.Implies(raised_now, z3.And(z3.BoolVal(_newkeys_sent(c.new_state)),
+                                                z3.Or(*[same_obj(cur, m) for m in made] + [z3.BoolVal(False)]))),
+                  z3.Implies(is_set(c, '_kex', old=False), z3.Not(c.new('_kex_complete'))))
+
+
 _c02m = _c02()
 if _c02m is not None:
     _nk = _c02m.send_newkeys
     send_newkeys_sid = finish(Spec(
         'C11', 'connection', 'SSHConnection.send_newkeys', self_class='SSHConnection', params=dict(_nk.params),
-        classes=_nk.classes, stubs=_nk.stubs, requires=_nk.requires,
+        classes=_nk.classes,
+        stubs=dict(_nk.stubs, **{'self.send_packet': nk_send_stub, 'self._send_deferred_packets': nk_flush_stub}),
+        # K (see ASSUMPTIONS of c11.py): the exchange that is being finished is marked as running
+        requires=lambda c: z3.And(_nk.requires(c), z3.Not(c.old('_kex_complete'))),
         ensures=[('session-id-written-once:first-exchange-hash,then-never-again', lambda c: c.new('_session_id') == z3.If(
-            z3.Length(c.old('_session_id')) > 0, c.old('_session_id'), c.arg('h')))],
+            z3.Length(c.old('_session_id')) > 0, c.old('_session_id'), c.arg('h'))),
+            ('held-back-packets-are-flushed-once-after-NEWKEYS', nk_flushed),
+            ('new-send-keys-installed,new-receive-keys-staged:both-built-in-this-exchange', nk_fresh_keys)],
         always=[('session-id-of-a-rekey-is-the-old-one', lambda c: z3.Implies(
-            z3.Length(c.old('_session_id')) > 0, c.new('_session_id') == c.old('_session_id')))],
+            z3.Length(c.old('_session_id')) > 0, c.new('_session_id') == c.old('_session_id'))),
+            ('kex_complete-raised-only-after-NEWKEYS-with-the-new-keys-installed', nk_bookkeeping)],
         raises=dict(_nk.raises)))
     for _attr in ('no_replay', 'opaque_native', 'runtime_class', 'feasible_timeout_ms', 'lazy_byte_ranges'):
         if hasattr(_nk, _attr):
